@@ -11,4 +11,5 @@ case "$M" in
   *) M=$(readlink -f "$M"); (cd "$D" && patch -p1 -s < "$M") ;;
 esac
 cd "$(dirname "$0")/.."
+export VERIF_EVIDENCE_DIR="$D/evidence"
 VERIF_REPO="$D" python3 run_check.py "$P" "$@" && echo "MUTANT-RESULT: exit 0 (not detected)" || echo "MUTANT-RESULT: exit $?"
